@@ -479,7 +479,12 @@ class Interp:
         return self.lib.truth(self, v)
 
     def raise_(self, cls, msg=None):
-        raise PyRaise(mkexc(cls, msg))
+        e = mkexc(cls, msg)
+        import os
+        if os.environ.get("VC_DEBUG"):
+            import traceback
+            e.f["_origin"] = "".join(traceback.format_stack(limit=6)[:-1])
+        raise PyRaise(e)
 
 
 def _excname(n):
